@@ -232,7 +232,14 @@ impl<'tcx> Cx<'tcx> {
                         let env = TypingEnv::post_analysis(tcx, did);
                         let res = Instance::try_resolve(tcx, env, *cdid, cargs).ok().flatten();
                         let _ = write!(c, ",\"callee\":{},\"foreign\":{},\"local\":{},\"krate\":{}", js(&tcx.def_path_str(*cdid)), tcx.is_foreign_item(*cdid), cdid.is_local(), js(tcx.crate_name(cdid.krate).as_str()));
-                        if let Some(i) = res { let _ = write!(c, ",\"resolved\":{},\"resolved_local\":{}", js(&tcx.def_path_str(i.def_id())), i.def_id().is_local()); }
+                        if let Some(i) = res {
+                            let _ = write!(c, ",\"resolved\":{},\"resolved_local\":{}", js(&tcx.def_path_str(i.def_id())), i.def_id().is_local());
+                            if i.def_id() != *cdid {
+                                // a trait call resolved to an impl method: that method's own type arguments (the impl's parameters first)
+                                let ra: Vec<String> = i.args.iter().map(|a| js(&a.to_string())).collect();
+                                let _ = write!(c, ",\"resolved_generics\":[{}]", ra.join(","));
+                            }
+                        }
                         let ga: Vec<String> = cargs.iter().map(|a| js(&a.to_string())).collect();
                         let _ = write!(c, ",\"generics\":[{}]", ga.join(","));
                     } else {
@@ -322,6 +329,14 @@ impl rustc_driver::Callbacks for Cb {
             }
             if !first { doc.push(','); } first = false;
             let _ = write!(doc, "{{\"path\":{},\"kind\":{},\"t\":{},\"v\":{}}}", js(&tcx.def_path_str(did)), js(&format!("{:?}", kind)), js(&t.to_string()), val);
+        }
+        doc.push_str("],\"traits\":[");
+        let mut first = true;
+        for id in tcx.hir_free_items() {
+            let did = id.owner_id.to_def_id();
+            if !matches!(tcx.def_kind(did), DefKind::Trait) { continue; }
+            if !first { doc.push(','); } first = false;
+            doc.push_str(&js(&tcx.def_path_str(did)));
         }
         doc.push_str("],\"mods\":[");
         let mut first = true;
